@@ -759,6 +759,84 @@ def run_rtp_inject(case: dict) -> Outcome:
     return Outcome(None, None, nt, cl, info={"max_work": result["max_work"]})
 
 
+# --------------------------------------------------------------------------
+# family 4: coverage-guided byte-level fuzzing (atheris / libFuzzer), same oracle as `parsers`
+
+FUZZ_TARGETS = ["sctp_packet_crc", "sctp_packet", "sctp_params", "reconfig_param", "rtp", "rtp2", "unwrap_rtx", "rtcp", "remb", "hdrext", "h264", "vp8"]
+
+
+def fuzz_shards(tier: str) -> int:
+    return 2 * len(FUZZ_TARGETS)  # every target from an empty corpus and from the repository's sample packets
+
+
+def run_fuzz(tier: str, seed: int, shard: int, nshards: int):
+    import glob
+    import os
+    import shutil
+    import subprocess
+    import tempfile
+    from pathlib import Path
+
+    from vlib.runner import ROOT, Stats
+
+    stats = Stats()
+    target = FUZZ_TARGETS[shard % len(FUZZ_TARGETS)]
+    seeded = shard >= len(FUZZ_TARGETS)
+    runs = 150000 if tier == "quick" else 4000000
+    name = f"fuzz:{target}:{'seeded' if seeded else 'empty'}"
+    try:
+        import atheris  # noqa: F401
+    except Exception:
+        stats.classes["fuzz:atheris-unavailable"] = 1
+        return stats
+    work = Path(tempfile.mkdtemp(prefix="c05fuzz."))
+    try:
+        corpus = work / "corpus"
+        corpus.mkdir()
+        if seeded:
+            src = os.environ.get("VERIF_REPO_SRC", "/repo/src")
+            tests = Path(src).parent / "tests"
+            pats = {"sctp": "sctp_*.bin", "rtcp": "rtcp_*.bin", "rtp": "rtp*.bin", "unwrap": "rtp*.bin", "remb": "rtcp_psfb*.bin",
+                    "h264": "h264*.bin", "vp8": "vp*.bin", "reconfig": "sctp_reconfig*.bin", "hdrext": "rtp_with*.bin"}
+            pat = next((v for k, v in pats.items() if target.startswith(k)), "*.bin")
+            for f in sorted(glob.glob(str(tests / pat)))[:40]:
+                shutil.copy(f, corpus / os.path.basename(f))
+        env = dict(os.environ)
+        cmd = [str(ROOT / "fuzz" / "fuzz_parsers.py"), target, str(corpus), f"-runs={runs}", f"-seed={seed * 1000 + shard + 1}", "-max_len=1500",
+               "-timeout=10", f"-artifact_prefix={work}/", "-print_final_stats=1", "-verbosity=0"]
+        p = subprocess.run(cmd, cwd=work, env=env, stdout=subprocess.PIPE, stderr=subprocess.STDOUT, text=True, timeout=3600)
+        done = 0
+        for line in p.stdout.splitlines():
+            if line.startswith("stat::number_of_executed_units:"):
+                done = int(line.split()[-1])
+        interesting = sorted(os.listdir(corpus))
+        stats.evaluations = done
+        stats.per_family["fuzz"] = {"evaluations": done, "nontrivial": len(interesting)}
+        for f in interesting:
+            stats.nontrivial.add(f"{target}:{f}")
+        stats.classes[name + ":corpus"] = len(interesting)
+        if interesting and shard % len(FUZZ_TARGETS) == 0:
+            stats.samples.append({"family": "fuzz", "case": {"target": target, "corpus_mode": "seeded" if seeded else "empty",
+                                                             "data": (corpus / interesting[0]).read_bytes()[:200].hex()}})
+        arts = [f for f in os.listdir(work) if f.startswith(("crash-", "timeout-", "oom-"))]
+        for a in arts[:3]:
+            raw = (work / a).read_bytes()
+            from fuzz.fuzz_parsers_split import split  # the same input decoding as the fuzz target
+
+            payload, aux = split(target, raw)
+            case = {"target": target, "mode": "fuzz", "data": payload.hex(), "aux": aux}
+            out = run_parser(case)
+            msg = out.violation or f"libFuzzer saved {a} ({len(raw)} bytes) but the input does not fail when replayed: {p.stdout[-300:]}"
+            kind = out.kind or ("fuzz-timeout:" + target if a.startswith("timeout-") else "fuzz-unreproduced:" + target)
+            stats.violations.append(("parsers", case, msg, kind))
+            stats.violation_counts[f"fuzz/{kind}"] = stats.violation_counts.get(f"fuzz/{kind}", 0) + 1
+        if p.returncode != 0 and not arts:
+            stats.errors.append(f"{name}: fuzzer exited with {p.returncode}: {p.stdout[-800:]}")
+    finally:
+        shutil.rmtree(work, ignore_errors=True)
+    return stats
+
+
 CHECK = Check(
     prop="C05",
     level="exploration",
@@ -775,6 +853,7 @@ CHECK = Check(
         Family("parsers", run_parser, parser_case, quick=20000, thorough=600000, min_shard=500),
         Family("sctp-inject", run_inject, inject_case, quick=2500, thorough=80000, min_shard=20),
         Family("rtp-inject", run_rtp_inject, rtp_inject_case, quick=1500, thorough=50000, min_shard=20),
+        Family("fuzz", run_parser, custom=run_fuzz, custom_shards=fuzz_shards),
     ],
     floor=500,
     assumptions=["work is measured as executed Python lines/jumps inside aiortc (deterministic), not wall time"],
